@@ -310,4 +310,47 @@ theorem axisOk_lattice (first st : Rat) (n : Nat) (hst : 0 < st) :
   · intro k _; constructor <;> simp [hst]
 
 
+/-! ### the traced plans (Tie 1b) and the model -/
+
+/-- `create_range_dim` is the lattice with `rangeCount` points -/
+theorem rangeDim_eq_count (start stop step : Rat) :
+    rangeDim start stop step = lattice start step (rangeCount start stop step) := by
+  unfold rangeDim rangeCount arangeLen
+  generalize ((stop - start) / step).ceil.toNat = n
+  cases n with
+  | zero => simp [lattice]
+  | succ M =>
+    simp only [lattice_getLast?]
+    have e : ((M + 1 : Nat) : Rat) - 1 = (M : Rat) := by push_cast; ring
+    rw [e]
+    by_cases h : start + (M : Rat) * step ≥ stop - step / 2
+    · simp [h, lattice_dropLast]
+    · simp [h]
+
+/-- the count in the form the traced code computes it (`coords.size > 0 and coords[-1] >= …`) -/
+theorem rangeCount_cast (start stop step : Rat) :
+    ((rangeCount start stop step : Nat) : Rat) =
+      if (0 : Rat) < (arangeLen start stop step : Rat) ∧
+          start + ((arangeLen start stop step : Rat) - 1) * step ≥ stop - step / 2
+      then (arangeLen start stop step : Rat) - 1 else (arangeLen start stop step : Rat) := by
+  unfold rangeCount
+  generalize arangeLen start stop step = n
+  cases n with
+  | zero => simp
+  | succ M =>
+    have hpos : (0 : Rat) < ((M + 1 : Nat) : Rat) := by push_cast; positivity
+    simp only [Nat.zero_lt_succ, true_and, hpos]
+    split <;> simp
+
+
+/-- facts the regenerated symbolic ties may need when the code takes a fast path on a constant -/
+@[simp, grind =] theorem floor_zero : Rat.floor 0 = 0 := by
+  rw [show (0 : Rat) = ((0 : Int) : Rat) by simp, Rat.floor_intCast]
+
+@[simp, grind =] theorem ceil_zero : Rat.ceil 0 = 0 := by
+  rw [show (0 : Rat) = ((0 : Int) : Rat) by simp, Rat.ceil_intCast]
+
+@[simp, grind =] theorem truncZ_zero : truncZ 0 = 0 := by simp [truncZ]
+
+
 end SE.Audio
